@@ -319,7 +319,7 @@ def proofTd (s : St) (p : Nat) (pst : PeerState) (req : ProveRequest) (m : Proof
     (boundary : Nat) (samples : List Nat) (boundaryG : Nat) (samplesG : List Nat)
     (reorg sampled lastNCount : Nat) (tauFailed : Bool) : M Out := do
           if !m.last.root then return ⟨s, .ban 439, []⟩
-          if !m.mmrOk then return ⟨s, .ban 439, []⟩
+          if !(mmrStructOk m.last m.headers && m.mmrOk) then return ⟨s, .ban 439, []⟩
           -- total difficulty against the previous proof
           if sampled ≠ 0 then
             if let some ps := pst.proveState? then
@@ -373,6 +373,7 @@ theorem onProof_eq (s : St) (p : Nat) (m : ProofMsg) (now : Nat) (boundary : Nat
     match pst.proveRequest? with
     | none => return ⟨s, .ok, []⟩
     | some req =>
+      if !m.last.tdOk then return ⟨s, .ban 434, []⟩
       if req.last.vid ≠ m.last.vid then
         if m.proofEmpty then
           -- `process_last_state` + `get_last_state_proof`
@@ -386,6 +387,7 @@ theorem onProof_eq (s : St) (p : Nat) (m : ProofMsg) (now : Nat) (boundary : Nat
             | .error c => return ⟨s1, .ban c, []⟩
         else return ⟨s, .ok, []⟩
       else
+        if !m.headers.all (·.tdOk) then return ⟨s, .ban 434, []⟩
         match ← checkMatched s.lastNBlocks req.content m.headers m.last with
         | .error c => return ⟨s, .ban c, []⟩
         | .ok (reorg, sampled, lastNCount) =>
@@ -446,7 +448,7 @@ theorem proofFinish_inv (h : proofFinish s p pst req m now b ds bG dsG r sc ln t
 
 theorem proofTd_inv (h : proofTd s p pst req m now b ds bG dsG r sc ln tf = .ok out) :
     out.st = s ∨
-    (m.last.root = true ∧ m.mmrOk = true ∧
+    (m.last.root = true ∧ (mmrStructOk m.last m.headers = true ∧ m.mmrOk = true) ∧
       proofFinish s p pst req m now b ds bG dsG r sc ln tf = .ok out) := by
   unfold proofTd at h
   split at h
@@ -455,7 +457,7 @@ theorem proofTd_inv (h : proofTd s p pst req m now b ds bG dsG r sc ln tf = .ok 
   split at h
   · simp only [M.pure_eq_ok] at h; subst h; exact .inl rfl
   rename_i h2
-  simp only [Bool.not_eq_true, Bool.not_eq_false'] at h1 h2
+  simp only [Bool.not_eq_true, Bool.not_eq_false', Bool.and_eq_true] at h1 h2
   split at h
   · split at h
     · simp only [M.bind_eq_ok] at h
@@ -563,6 +565,8 @@ theorem onProof_inv (h : onProof s p m now b ds bG dsG = .ok out) (hp : getPeer 
   rw [onProof_eq] at h
   simp only [hp, hr] at h
   split at h
+  · simp only [M.pure_eq_ok] at h; subst h; exact .inl rfl
+  split at h
   · rename_i hne
     split at h
     · rename_i hpe
@@ -584,6 +588,8 @@ theorem onProof_inv (h : onProof s p m now b ds bG dsG = .ok out) (hp : getPeer 
     · simp only [M.pure_eq_ok] at h; subst h; exact .inl rfl
   · rename_i heq
     simp only [ne_eq, Decidable.not_not] at heq
+    split at h
+    · simp only [M.pure_eq_ok] at h; subst h; exact .inl rfl
     simp only [M.bind_eq_ok] at h
     obtain ⟨res, hres, h⟩ := h
     split at h
@@ -593,7 +599,7 @@ theorem onProof_inv (h : onProof s p m now b ds bG dsG = .ok out) (hp : getPeer 
       · exact .inl h'
       rcases proofCont_inv h with h' | ⟨hc1, hc2, h⟩
       · exact .inl h'
-      rcases proofTd_inv h with h' | ⟨hroot, hmmr, h⟩
+      rcases proofTd_inv h with h' | ⟨hroot, ⟨-, hmmr⟩, h⟩
       · exact .inl h'
       rcases proofFinish_inv h with h' | h' | ⟨lh, hcommit, hout⟩
       · exact .inl h'
@@ -652,7 +658,6 @@ theorem onLastState_ids {s : St} {p : Nat} {hd : VH} {now b : Nat} {ds : List Na
       · split at h
         · simp only [M.bind_eq_ok] at h
           obtain ⟨provedTd, -, h⟩ := h
-          obtain ⟨a, -, h⟩ := h
           have hs2 : ∀ (c : Prop) [Decidable c] (l : List VH),
               (if c then storeLastState (setPeer s p ‹PeerState›) newTd hd l
                 else setPeer s p ‹PeerState›).peers.map (·.1) = s.peers.map (·.1) := by
@@ -661,11 +666,15 @@ theorem onLastState_ids {s : St} {p : Nat} {hd : VH} {now b : Nat} {ds : List Na
             · exact setPeer_ids ..
             · exact setPeer_ids ..
           split at h
-          · split at h
-            · simp only [M.pure_eq_ok] at h; subst h
-              rw [setPeer_ids]; exact hs2 ..
-            · simp only [M.pure_eq_ok] at h; subst h
-              exact hs2 ..
+          · simp only [M.bind_eq_ok] at h
+            obtain ⟨a, -, h⟩ := h
+            split at h
+            · split at h
+              · simp only [M.pure_eq_ok] at h; subst h
+                rw [setPeer_ids]; exact hs2 ..
+              · simp only [M.pure_eq_ok] at h; subst h
+                exact hs2 ..
+            · simp only [M.pure_eq_ok] at h; subst h; exact setPeer_ids ..
           · simp only [M.pure_eq_ok] at h; subst h; exact setPeer_ids ..
         · simp only [M.pure_eq_ok] at h; subst h; exact setPeer_ids ..
       · simp only [M.pure_eq_ok] at h; subst h; exact setPeer_ids ..
@@ -727,17 +736,20 @@ theorem onLastState_nodup {s : St} {p : Nat} {hd : VH} {now b : Nat} {ds : List 
 /-! ### `checkMatched` in blocks -/
 
 /-- the section counts `(sampled, lastNCount)` of `checkMatched` -/
-def cmShape (lastN : Nat) (c : ReqContent) (headers : List VH) (reorg : Nat) : M (Nat × Nat) :=
+def cmShape (lastN : Nat) (c : ReqContent) (headers : List VH) (reorg : Nat) :
+    M (Except Nat (Nat × Nat)) :=
   let total := headers.length
   (if total - reorg > lastN then do
       let before ← checkMatched.countBefore c headers
-      let lnc := total - before
-      if lastN < lnc then
-        -- `before_boundary_count - reorg_count`: checked `usize` subtraction
-        let sc ← subU64 64 before reorg
-        pure (sc, lnc)
-      else pure (total - reorg - lastN, lastN)
-    else pure (0, total - reorg) : M (Nat × Nat))
+      if before < reorg then pure (.error 452)
+      else
+        let lnc := total - before
+        if lastN < lnc then
+          -- `before_boundary_count - reorg_count`: checked `usize` subtraction
+          let sc ← subU64 64 before reorg
+          pure (.ok (sc, lnc))
+        else pure (.ok (total - reorg - lastN, lastN))
+    else pure (.ok (0, total - reorg)) : M (Except Nat (Nat × Nat)))
 
 /-- `checkMatched` after the boundary check of the first last-N header -/
 def cmTail (c : ReqContent) (headers : List VH) (last : VH) (reorg sampled lastNCount : Nat) :
@@ -772,7 +784,9 @@ def cmMid (lastN : Nat) (c : ReqContent) (headers : List VH) (last : VH) (reorg 
     M (Except Nat (Nat × Nat × Nat)) := do
   let total := headers.length
   let shape ← cmShape lastN c headers reorg
-  let (sampled, lastNCount) := shape
+  match shape with
+  | .error c => return .error c
+  | .ok (sampled, lastNCount) =>
   if sampled ≠ 0 then
     match headers[total - lastNCount]? with
     | none => .error (.index 72)
@@ -845,7 +859,7 @@ theorem of_mem_takeWhile {α} (P : α → Bool) : ∀ (l : List α) (x : α), x 
     · simp [ha] at h
 
 theorem cmShape_sum {lastN : Nat} {c : ReqContent} {headers : List VH} {reorg sc ln : Nat}
-    (h : cmShape lastN c headers reorg = .ok (sc, ln)) (hr : reorg ≤ headers.length) :
+    (h : cmShape lastN c headers reorg = .ok (.ok (sc, ln))) (hr : reorg ≤ headers.length) :
     headers.length = reorg + sc + ln := by
   unfold cmShape at h
   simp only [] at h
@@ -855,13 +869,15 @@ theorem cmShape_sum {lastN : Nat} {c : ReqContent} {headers : List VH} {reorg sc
     obtain ⟨before, hb, h⟩ := h
     have hble := countBefore_le c _ _ hb
     split at h
-    · simp only [M.bind_eq_ok, subU64_eq_ok, M.pure_eq_ok, Prod.mk.injEq] at h
+    · simp at h
+    split at h
+    · simp only [M.bind_eq_ok, subU64_eq_ok, M.pure_eq_ok, Except.ok.injEq, Prod.mk.injEq] at h
       obtain ⟨x, ⟨hle, rfl⟩, rfl, rfl⟩ := h
       omega
-    · simp only [M.pure_eq_ok, Prod.mk.injEq] at h
+    · simp only [M.pure_eq_ok, Except.ok.injEq, Prod.mk.injEq] at h
       obtain ⟨rfl, rfl⟩ := h
       omega
-  · simp only [M.pure_eq_ok, Prod.mk.injEq] at h
+  · simp only [M.pure_eq_ok, Except.ok.injEq, Prod.mk.injEq] at h
     obtain ⟨rfl, rfl⟩ := h
     omega
 
@@ -936,13 +952,15 @@ theorem cmTail_inv {c : ReqContent} {headers : List VH} {last : VH} {reorg sampl
 
 theorem cmMid_inv {lastN : Nat} {c : ReqContent} {headers : List VH} {last : VH} {reorg r sc ln : Nat}
     (h : cmMid lastN c headers last reorg = .ok (.ok (r, sc, ln))) :
-    cmShape lastN c headers reorg = .ok (sc, ln) ∧
+    cmShape lastN c headers reorg = .ok (.ok (sc, ln)) ∧
     (sc ≠ 0 → ∃ f, headers[headers.length - ln]? = some f ∧ f.ptd < c.boundary) ∧
     cmTail c headers last reorg sc ln = .ok (.ok (r, sc, ln)) := by
   unfold cmMid at h
   simp only [M.bind_eq_ok] at h
-  obtain ⟨⟨sampled, lnc⟩, hshape, h⟩ := h
-  simp only [] at h
+  obtain ⟨shape, hshape, h⟩ := h
+  split at h
+  · simp at h
+  rename_i sampled lnc
   split at h
   · rename_i hs0
     split at h
